@@ -575,6 +575,96 @@ loop:
 	return c
 }
 
+// mkChunkGen replays the chunk loop of startPortScanEngine on the request generator the tcp / udp commands build
+// (newIPPortGenerator): one GenerateRequests call per chunk of 200 port ranges on the SAME generator, each under a child
+// context that is cancelled when the chunk is done (as startScanEngine does), for a subnet much larger than the channel
+// buffers.  Every chunk must yield every (address, port) of its ranges exactly once.  The probes are checked here (there
+// are ~10^6 of them); the observation reported is the list of discrepancies.
+type chunkGenJ struct {
+	Kind     string   `json:"kind"` // chunkgen
+	CaseSeed int64    `json:"case_seed"`
+	Class    string   `json:"class"`
+	Net      string   `json:"net"`
+	NRanges  int      `json:"nranges"`
+	Chunks   int      `json:"chunks"`
+	Attempts int      `json:"attempts"`
+	Total    int      `json:"total"`
+	Bad      []string `json:"bad"` // first discrepancies, in words
+	NBad     int      `json:"nbad"`
+	Err      string   `json:"err,omitempty"`
+}
+
+func mkChunkGen(caseSeed int64, attempts int) chunkGenJ {
+	tgt.Settle(baseGoroutines)
+	r := hlib.NewRand(caseSeed)
+	c := chunkGenJ{Kind: "chunkgen", CaseSeed: caseSeed, Class: "tcp-udp:subnet-chunks"}
+	k := 20 + r.Intn(2)
+	a, _ := tgt.RandNet4(r, k, k, true)
+	size := 1 << uint(32-k)
+	c.Net = fmt.Sprintf("%s/%d", tgt.Dotted(a), k)
+	nr := 201 + r.Intn(3)
+	var rs []*scan.PortRange
+	p0 := 1000 + r.Intn(30000)
+	for i := 0; i < nr; i++ {
+		rs = append(rs, &scan.PortRange{StartPort: uint16(p0 + 2*i), EndPort: uint16(p0 + 2*i)})
+	}
+	c.NRanges = nr
+	dst := &net.IPNet{IP: tgt.U32(a), Mask: net.CIDRMask(k, 32)}
+	for att := 1; att <= attempts && c.NBad == 0; att++ {
+		c.Attempts = att
+		gen := command.VerifPacketIPPortGenerator(&command.VerifTargetOpts{PortRanges: rs})
+		parent, stop := context.WithCancel(context.Background())
+		c.Chunks = 0
+		for i := 0; i < len(rs); i += 200 {
+			end := i + 200
+			if end > len(rs) {
+				end = len(rs)
+			}
+			c.Chunks++
+			ctx, cancel := context.WithCancel(parent)
+			ch, err := gen.GenerateRequests(ctx, &scan.Range{DstSubnet: dst, Ports: rs[i:end]})
+			if err != nil {
+				c.Err = err.Error()
+				cancel()
+				break
+			}
+			seen := make(map[uint64]int, (end-i)*size)
+			for q := range ch {
+				c.Total++
+				if q.Err != nil {
+					c.NBad++
+					if len(c.Bad) < 6 {
+						c.Bad = append(c.Bad, fmt.Sprintf("chunk of port ranges [%d:%d]: error request '%v'", i, end, q.Err))
+					}
+					continue
+				}
+				x := tgt.V4(q.DstIP)
+				seen[uint64(x)<<16|uint64(q.DstPort)]++
+				if uint64(x) < uint64(a) || uint64(x) >= uint64(a)+uint64(size) {
+					c.NBad++
+					if len(c.Bad) < 6 {
+						c.Bad = append(c.Bad, fmt.Sprintf("chunk of port ranges [%d:%d]: probe for %s:%d is outside the subnet %s", i, end, tgt.Dotted(x), q.DstPort, c.Net))
+					}
+				}
+			}
+			cancel() // the engine run is over: startScanEngine cancels its context
+			for _, pr := range rs[i:end] {
+				for j := 0; j < size; j++ {
+					n := seen[uint64(a+uint32(j))<<16|uint64(pr.StartPort)]
+					if n != 1 {
+						c.NBad++
+						if len(c.Bad) < 6 {
+							c.Bad = append(c.Bad, fmt.Sprintf("chunk of port ranges [%d:%d]: %s:%d is probed %d times", i, end, tgt.Dotted(a+uint32(j)), pr.StartPort, n))
+						}
+					}
+				}
+			}
+		}
+		stop()
+	}
+	return c
+}
+
 var stdinContent string
 
 // forceFilter: every chain case gets an exclusion list (the C02 check drives the chains of all commands this way)
@@ -633,6 +723,8 @@ func main() {
 	ne2e := flag.Int("ne2e", 8, "number of end-to-end runs")
 	flag.BoolVar(&forceFilter, "forcefilter", false, "every chain case has an exclusion list")
 	flag.BoolVar(&slowFrames, "slowframes", false, "frame-level cases with > 1000 addresses, a big exclusion list and a slow consumer")
+	nchunkgen := flag.Int("nchunkgen", 0, "replays of the chunk loop on the real tcp/udp request generator (big subnet, > 200 port ranges)")
+	chunkAttempts := flag.Int("chunkattempts", 1, "attempts per chunk loop replay (a data race needs the schedule to cooperate)")
 	nframes := flag.Int("nframes", 0, "chain cases observed on the frames of the real packet source")
 	e2eSet := flag.String("e2eset", "coverage", "coverage | refuse (non-IPv4 targets, for C02)")
 	flag.Parse()
@@ -665,6 +757,12 @@ func main() {
 			w.Put(mkPorts(cs))
 		case "nested":
 			w.Put(mkNested(cs))
+		case "chunkgen":
+			att := 1
+			if len(f) > 2 {
+				fmt.Sscan(f[2], &att)
+			}
+			w.Put(mkChunkGen(cs, att))
 		case "frames":
 			vol, cmd := 2000, "udp"
 			if len(f) > 2 {
@@ -700,6 +798,9 @@ func main() {
 	}
 	for i := 0; i < *nchain; i++ {
 		w.Put(mkChain(r.Int63(), *big))
+	}
+	for i := 0; i < *nchunkgen; i++ {
+		w.Put(mkChunkGen(r.Int63(), *chunkAttempts))
 	}
 	for i := 0; i < *nframes; i++ {
 		// mostly moderate volumes (also evaluated by the model), every third one a large one
